@@ -369,6 +369,14 @@ class C12(Prop):
     out['nested'] = nest_j(nested)
     compact = d.to_json(compact=True, type_info=False)
     out['compact'] = nest_j(compact)
+    # the verbose form: value + children of the root, every child as ITS to_json() (compact dicts)
+    vj = d.to_json(compact=False)
+    out['verbose'] = {
+        'value': ({'f': list(vj['value'].as_integer_ratio())} if isinstance(vj['value'], float) else vj['value']),
+        'children': [
+            nest_j(pg_sym.from_json(c['value'])) if isinstance(c, dict) and c.get('format') == 'compact'
+            else {'not-compact': sorted(c) if isinstance(c, dict) else str(type(c))}
+            for c in vj['children']]}
 
     def attempt(fn):
       try:
@@ -381,6 +389,7 @@ class C12(Prop):
     out['from_numbers'] = attempt(lambda: geno.DNA.from_numbers(flat, spec))
     out['parse_nested'] = attempt(lambda: geno.DNA(nested))
     out['parse_compact'] = attempt(lambda: geno.DNA(compact))
+    out['parse_verbose'] = attempt(lambda: pg_sym.from_json(d.to_json(compact=False)))
     out['beliefs'] = beliefs(d)
     dicts = []
     for kt, vt, mk in GRID:
@@ -516,13 +525,18 @@ class C12(Prop):
       return sorted(d, key=lambda kv: kv[0]) if isinstance(d, list) else d
 
     for i, (da, db) in enumerate(zip(a['dnas'], b['dnas'])):
-      for k in ('norm', 'flat', 'nested', 'compact', 'from_numbers', 'parse_nested', 'parse_compact', 'beliefs'):
+      for k in ('norm', 'flat', 'nested', 'compact', 'verbose', 'from_numbers', 'parse_nested', 'parse_compact',
+                'parse_verbose', 'beliefs'):
         chk('dna%d.%s' % (i, k), da[k], db.get(k))
       if db.get('dicts') is not None:
         for (kt, vt, mk), x, y in zip(GRID, da['dicts'], db['dicts']):
           chk('dna%d.to_dict(%s,%s,%s)' % (i, kt, vt, mk), x, sort_dict(y))
         for (kt, vt, mk), x, y in zip(GRID, da['from_dicts'], db.get('from_dicts') or []):
           chk('dna%d.from_dict(to_dict(%s,%s,%s))' % (i, kt, vt, mk), x, y)
+        # C12_dict_roundtrip: where the model's decidable condition holds the CODE must round-trip
+        for (kt, vt, mk), x, cond in zip(GRID, da['from_dicts'], db.get('dict_conds') or []):
+          if cond and x != da['norm']:
+            diffs.append('dna%d: dictCond(%s,%s,%s) holds but from_dict(to_dict) = %s' % (i, kt, vt, mk, x))
     for i, (ca, cb) in enumerate(zip(a['chains'], b['chains'])):
       for j, (sa, sb) in enumerate(zip(ca, cb)):
         if sa is None or sb is None:
